@@ -279,13 +279,39 @@ Section Codecs.
         end
     end.
 
+  (** Subscriptions::remove: as long as there is a subscription to drop, the FIRST one is taken out by
+      [swap_remove] - the last one of the table moves into its place (the order of the table is the
+      order of the slots in the store) *)
+  Fixpoint find_idx (p : N * N -> bool) (l : list (N * N)) : option nat :=
+    match l with
+    | [] => None
+    | x :: t => if p x then Some O else option_map S (find_idx p t)
+    end.
+  Definition swap_remove (i : nat) (l : list (N * N)) : list (N * N) :=
+    match rev (skipn (S i) l) with
+    | [] => firstn i l
+    | lst :: before => firstn i l ++ lst :: rev before
+    end.
+  Fixpoint drop_loop (fuel : nat) (p : N * N -> bool) (l : list (N * N)) : list (N * N) :=
+    match fuel with
+    | O => l
+    | S k => match find_idx p l with
+             | None => l
+             | Some i => drop_loop k p (swap_remove i l)
+             end
+    end.
+  Definition drop_where (p : N * N -> bool) (l : list (N * N)) : list (N * N) :=
+    drop_loop (length l) p l.
+  Definition drop_subs (g : N) (l : list (N * N)) : list (N * N) :=
+    drop_where (fun x => fst x =? g) l.
+
   (** resume_subscriptions: load, drop the subscriptions of fabrics that are not in the table and
       write the table back if any was dropped *)
   Definition resume_subs (m : kv) (fabs : list (N * fabric)) : option (list (N * N) * list kvop) :=
     match load_subs (nrange SUBS_START (N.to_nat NSUBS)) m with
     | None => None
     | Some l =>
-        let l' := filter (fun x => amem fabs (fst x)) l in
+        let l' := drop_where (fun x => negb (amem fabs (fst x))) l in
         if (length l' =? length l)%nat then Some (l, []) else Some (l', persist_subs l')
     end.
 
@@ -408,7 +434,7 @@ Section Codecs.
     let res' := filter (fun x => negb (fst x =? g)) (r_resump r) in
     let e1 := [EKv (KStore K_RESUMP (enc_res res'))] in
     (* the subscriptions of the fabric; the table is written back if any was dropped *)
-    let sb := filter (fun x => negb (fst x =? g)) (r_subs r) in
+    let sb := drop_subs g (r_subs r) in
     let e1s := if (length sb =? length (r_subs r))%nat then [] else map EKv (persist_subs sb) in
     let (sc, e2) := drop_for (r_scenes r) g K_SCENES enc_scenes in
     let (ot, e3) := drop_for (r_ota r) g K_OTA enc_ota in
@@ -560,7 +586,7 @@ Section Codecs.
             else
               (* the earlier subscriptions of this peer on this fabric go, the new one is appended;
                  the answer leaves BEFORE the table is written (persisting is best-effort) *)
-              let sb := filter (fun x => negb (fst x =? f)) (r_subs r) ++ [(f, v)] in
+              let sb := drop_subs f (r_subs r) ++ [(f, v)] in
               commit (with_ram st (set_subs r sb)) (EAck Ok :: map EKv (persist_subs sb))
         | None => refuse st
         end
